@@ -3036,6 +3036,11 @@ void do_message (svalue_t * msg_class, svalue_t * msg, array_t * scope, array_t 
         default:
           continue;
         }
+      /* An array keeps an object that was destructed (by an earlier receive_message(), too)
+       * until the element is read. Such an object is still interactive while
+       * remove_interactive() is in its net_dead(). */
+      if (ob->flags & O_DESTRUCTED)
+        continue;
       if (ob->flags & O_LISTENER || ob->interactive)
         {
           for (valid = 1, j = 0; j < exclude->size; j++)
